@@ -331,6 +331,23 @@ Theorem C05_no_try_is_phantom : forall open c st i nerr,
 Proof. intros. split; [reflexivity|]. split; [reflexivity|]. intro acc. reflexivity. Qed.
 Print Assumptions C05_no_try_is_phantom.
 
+(* the call-level oracle for several clients: a reported offset lies between accepted measurements; with one
+   accepted measurement it is that one, with none nothing passes (kind scion.twopath) *)
+Theorem C05_call_offset_within_spec : forall off accepted,
+  C05_call_offset_within off accepted = true <->
+  exists a b, In a accepted /\ In b accepted /\ a <= off <= b.
+Proof.
+  intros off accepted. unfold C05_call_offset_within. rewrite andb_true_iff, !existsb_exists. split.
+  - intros [(a & Ha & La) (b & Hb & Lb)]. apply Z.leb_le in La. apply Z.leb_le in Lb. exists a, b. auto.
+  - intros (a & b & Ha & Hb & La & Lb). split; [exists a|exists b]; split; auto; apply Z.leb_le; assumption.
+Qed.
+Print Assumptions C05_call_offset_within_spec.
+
+Example C05_ex_call_offset_within :
+  C05_call_offset_within 0 [12345] = false /\ C05_call_offset_within 12345 [12345] = true /\
+  C05_call_offset_within 0 [] = false /\ C05_call_offset_within 15 [10; 20] = true.
+Proof. repeat split; reflexivity. Qed.
+
 (* MeasureClockOffsetSCION (one client): an offset only from a genuine datagram, an error otherwise *)
 Theorem C05_scion_call_offset_genuine : forall open c st envs st' cr lrs off ts,
   envs <> [] ->
